@@ -1,6 +1,6 @@
 (* C16 -- angle-limit exclusion drops exactly the flagged interfaces and solves the rest.  Statements only. *)
 From Coq Require Import ZArith QArith List Bool.
-From Forsys Require Import Model.PyList Model.Interfaces Model.ForceSys Proofs.InterfacesProofs Proofs.ForceSysProofs.
+From Forsys Require Import Model.Num Model.PyList Model.Interfaces Model.ForceSys Model.AngleLimit Proofs.InterfacesProofs Proofs.ForceSysProofs Proofs.AngleProofs.
 Import ListNotations.
 
 (* the unknowns are the internal interfaces minus those flagged at both ends, in the same order *)
@@ -11,6 +11,18 @@ Proof. exact used_is_filter. Qed.
 Theorem C16_excluded_iff_both_ends : forall deletes internal e, NoDup internal ->
   In e internal -> (In e (angle_limited_edges deletes internal) <-> both_ends_in deletes e = false).
 Proof. intros deletes internal e Hnd Hin. rewrite used_is_filter by exact Hnd. rewrite filter_In, negb_true_iff. tauto. Qed.
+(* a junction is flagged exactly when SOME pair of its interface directions (any two positions of its interface list, not only
+   neighbouring ones) opens by at least the limit: clipped dot product <= cos(limit) *)
+Theorem C16_flagged_iff_some_pair : forall {T} (N : NumOps T) coslimit (versors : list (T * T)),
+  junction_flagged N coslimit versors = true <->
+  exists a b l1 l2 l3, versors = l1 ++ a :: l2 ++ b :: l3 /\ opens_by_limit N coslimit (a, b) = true.
+Proof. intros T N. exact (flagged_iff_some_pair N). Qed.
+Theorem C16_flagged_junctions_spec : forall {T} (N : NumOps T) coslimit (juncs : list (Z * list (T * T))) v,
+  In v (flagged_junctions N coslimit juncs) <-> exists vs, In (v, vs) juncs /\ junction_flagged N coslimit vs = true.
+Proof. intros T N. exact (flagged_junctions_spec N). Qed.
+(* four directions: all six pairs are tested *)
+Example C16_six_pairs_at_a_fourfold_junction : length (all_pairs [1; 2; 3; 4]%Z) = 6%nat.
+Proof. reflexivity. Qed.
 (* nothing flagged => nothing excluded *)
 Theorem C16_nothing_flagged_nothing_excluded : forall internal, angle_limited_edges [] internal = internal.
 Proof. exact nothing_flagged_nothing_excluded. Qed.
@@ -37,3 +49,5 @@ Print Assumptions C16_excluded_iff_both_ends.
 Print Assumptions C16_nothing_flagged_nothing_excluded.
 Print Assumptions C16_reinsert_spec.
 Print Assumptions C16_reinsert_identity.
+Print Assumptions C16_flagged_iff_some_pair.
+Print Assumptions C16_flagged_junctions_spec.
